@@ -614,7 +614,9 @@ def run(ctx):
               "L-ENUM: list(set) enumerates the members bijectively in unspecified order; set/update/difference as predicates",
               "SamplerConfig.validate rejects overlapping periodic/reflective index sets and out-of-range indices (C18) — used as precondition",
               "symmetric-proposal consequence: from the pre-image lemmas, q(u->u') = sum_k phi(u'+k-u) (periodic) resp. "
-              "sum_k [phi(u'+2k-u) + phi(-u'+2k-u)] (reflective) is symmetric for even phi by re-indexing k -> -k: the re-indexing of the "
-              "infinite sum is a textbook step, not machine-checked")
+              "sum_k [phi(u'+2k-u) + phi(-u'+2k-u)] (reflective) per coordinate; symmetric for a density that is even under full "
+              "negation (periodic) resp. even in the reflected coordinate alone (reflective): the re-indexing of the infinite sum is a "
+              "textbook step, not machine-checked.  For a *correlated* multivariate proposal the reflective case does NOT follow "
+              "(increments (e0,e1) vs (e0,-e1)): recorded as known finding under C03 (RWM + reflective + correlated scale)")
     ctx.undecided_clauses.append("closeness of the binary64 reflective fold to the real triangle wave (|res - tri(v)| <= 2^-53) is not an SMT "
                                  "obligation; it is checked by the native replayer's exact-rational oracle on the directed search set only (bounded)")
